@@ -88,6 +88,38 @@ def value_job(N):
     j.bounded_note = 'value obligations only, exhaustive over all NUL-terminated byte strings of at most %d bytes' % N
     return j
 
+H_PRINT = '''/* every canonical machine-word constant of the scaled width, one after the other, with CONCRETE values: symbolic string lengths make the SAT instance
+   intractable (16 M variables at width 4), concrete ones are plain symbolic execution */
+static void one(t_word num, t_uword den) {
+  s_blocks = 0; h_mpq_used = 0; g_frees = 0;
+  h_val.state = 1; h_val.num = num; h_val.den = den; h_val.mpq = (mpq_ptr)0;
+  struct PTRef tr; tr.x = 7;
+  struct osmt_string r = ArithLogic__termToSMT2StringImpl((struct ArithLogic *)0, tr, 0);
+  struct printed p = pr_read(r.p, r.n);
+  __CPROVER_assert(p.ok, "the printed text is one of  N | (- N) | (/ N D) | (/ (- N) D)  with decimal numerals");
+  __CPROVER_assert(p.d != 0, "the printed denominator is not zero");
+  long long n = num; unsigned long long an = n < 0 ? (unsigned long long)(-n) : (unsigned long long)n, d = den;
+  __CPROVER_assert(p.n * d == an * p.d, "value: the printed text denotes the magnitude of the constant");
+  __CPROVER_assert(p.neg == (n < 0) || an == 0, "value: the printed text carries the sign of the constant");
+}
+static int h_gcd(int a, int b) { for (int k = 0; k < 8; k++) { if (b == 0) break; int t = a % b; a = b; b = t; } return a; }
+void harness(void) {
+  for (int n = -(1 << (OSMT_W - 1)); n < (1 << (OSMT_W - 1)); n++)
+    for (int d = 1; d < (1 << OSMT_W); d++)
+      if (h_gcd(n < 0 ? -n : n, d) == 1) one((t_word)n, (t_uword)d);
+  OSMT_REACH("return");
+}
+'''
+def print_job(W=4):
+    import checks.C15 as C15
+    return Job('termToSMT2String.S%d' % W, 'src/logics/ArithLogic.cc', 'opensmt::ArithLogic::termToSMT2StringImpl', tier='S', width=W, header='contracts/C16/print.h', harness=H_PRINT, enforce=False, aux_tu=C15.TU,
+               pre_includes=('stubs/gmp_types.h', 'stubs/std_types.h', 'contracts/C16/print_types.h'),
+               stubs=C15.POOL_STUBS + ('opensmt::Logic::termToSMT2StringImpl', 'opensmt::ArithLogic::isNumConst', 'opensmt::stringToRational', 'opensmt::Logic::getPterm', 'opensmt::SymStore::getName', 'opensmt::Pterm::symb', 'FastRational__ctor__char_P_int'),
+               opaque=('opensmt::ArithLogic', 'opensmt::Logic', 'opensmt::SymStore'), defines=('OSMT_GMP_EXACT', 'OSMT_CHECK_WF_ASSERTS'), unwindset=C15.S_UNWIND(W) + ('sp_coprime.0:56', 'harness.0:%d' % ((1 << W) + 1), 'harness.1:%d' % ((1 << W) + 1)), default_unwind=18, min_obligations=5, timeout=1800, object_bits=12, weight=30,
+               expected_wrap=(('absVal__word', 'type conversion'), ('absVal__lword', 'type conversion'), ('absVal__word', 'unary minus'), ('absVal__lword', 'unary minus')),
+               bounded_note='every canonical machine-word constant at word width %d (the most negative numerator goes through the GMP path); strings of at most 16 bytes' % W,
+               proves='the text printed for a numeric constant denotes the constant (value and sign)')
+
 def jobs(tier, N=None):
     N = N or (4 if tier == 'quick' else 5)
     return [job('isIntString', 'opensmt::isIntString', H_INT, N + 1), job('isRealString', 'opensmt::isRealString', H_REAL, N + 1),
@@ -96,6 +128,7 @@ def jobs(tier, N=None):
             #  buffer and shift-add value arithmetic, still does not finish in 30 min)
             Job('normalize.base', TU, 'opensmt::normalize', tier='R', header='contracts/C16/normalize.h', harness=H_BASE, enforce=False, pre_includes=('stubs/gmp_types.h',),
                 min_obligations=1, default_unwind=4, proves='normalize hands the literal to GMP with base 10')]
+    # print_job() (ArithLogic::termToSMT2StringImpl + FastRational::get_str over a concrete std::string/ostream model) is NOT registered: see DESIGN 3 C16
 
 def info(tier, results):
     return {'level': 'other' if all(r['tier']=='S' or r.get('bounded_note') for r in results) else 'proof', 'trusted_base': ['clang 14 AST', 'osmt2c lowering', 'CBMC 6.11'], 'assumptions': [], 'explanation': ''}
